@@ -843,6 +843,45 @@ def _inline_has(rec, typ, v):
 
 
 
+class SaveNewest(Family):
+    """An ordinary save (unmodified GlueSerializer) tags every record of a registered type with the
+    newest protocol of that type."""
+    name = "newest"
+    exhaustive = True
+    max_jobs = 1
+
+    def cases(self, tier, rng):
+        for i in range(len(FIXED_RECIPES)):
+            yield i
+
+    def reset(self):
+        Registry()._registry.clear()
+
+    def run_impl(self, case):
+        dc, ds, keep = build_dc(FIXED_RECIPES[case], 4)
+        rec = json.loads(GlueSerializer(dc, include_data=True).dumps())
+        names = {qual(t) for t in GlueSerializer.dispatch._data}
+        pairs = set()
+
+        def walk(x):
+            if isinstance(x, dict):
+                t = x.get("_type")
+                if isinstance(t, str) and t in names:
+                    pairs.add((t, x.get("_protocol", 1)))
+                for y in x.values():
+                    walk(y)
+            elif isinstance(x, list):
+                for y in x:
+                    walk(y)
+        walk(rec)
+        del keep
+        return [[t, v] for t, v in sorted(pairs)]
+
+    def nontrivial(self, case, po):
+        return isinstance(po, list) and any(str(v) != "1" for _, v in po)
+
+
+
 PROP = Property(
     id="C12",
     title="Every serialisation protocol version ever registered still loads what it saved",
@@ -856,7 +895,7 @@ PROP = Property(
         "C12.save_uses_newest_table", "C12.registry_keys_unique",
         "C12.load_v_save_v_data", "C12.load_v_save_v", "C12.newest_is_lossless",
     ],
-    families=[Tables(), Dispatch(), Patch(), VDict(), RoundTrip(), RoundTripOther()],
+    families=[Tables(), Dispatch(), SaveNewest(), Patch(), VDict(), RoundTrip(), RoundTripOther()],
     pre_build=pre_build,
     partial_note="no_capture_partial: no rename-table key names a live, written, concrete class EXCEPT the four names of known finding F12 (knownCaptured); the full statement is false on the pinned tree (witness no_capture_witness_F12). All other theorems are full.",
     trusted_base=[
